@@ -23,6 +23,8 @@ VERIF = os.path.dirname(os.path.dirname(os.path.abspath(__file__)))
 def one(sid, seed):
     sdir = os.path.join(VERIF, "seeded", sid)
     meta = json.load(open(os.path.join(sdir, "meta.json"), encoding="utf-8"))
+    if meta.get("obsolete"):
+        return {"id": sid, "checks": {}, "caught": True, "obsolete": True}
     checks = meta.get("detected_by") or [meta["property"]]
     tmp = f"/tmp/reeval_{sid}"
     shutil.rmtree(tmp, ignore_errors=True)
